@@ -94,6 +94,17 @@ def gen_atom(outdir, maxpages=6, imported=False):
     else:
         m.memory(1, maxpages, shared=True, export="memory")
     add_memory_ops(g, True)
+    add_atomic_ops(g)
+    for off in WAIT_OFFS:
+        g.add("wait32_o%d" % off, "iij", "i", [("local.get", 0), ("local.get", 1), ("local.get", 2), ("memory.atomic.wait32", off)], "wait32", str(off))
+        g.add("wait64_o%d" % off, "ijj", "i", [("local.get", 0), ("local.get", 1), ("local.get", 2), ("memory.atomic.wait64", off)], "wait64", str(off))
+        g.add("notify_o%d" % off, "ii", "i", [("local.get", 0), ("local.get", 1), ("memory.atomic.notify", off)], "notify", str(off))
+    g.add("fence", "", "", [("atomic.fence",)], "fence")
+    g.write(outdir)
+
+
+def add_atomic_ops(g):
+    # every atomic load/store/rmw/cmpxchg opcode with two static offsets (also valid on a memory that is not shared)
     for op, code in sorted(ATOMIC.items(), key=lambda kv: kv[1]):
         if op in ("atomic.fence",):
             continue
@@ -113,12 +124,6 @@ def gen_atom(outdir, maxpages=6, imported=False):
                 g.add(nm, "i" + vt + vt, vt, [("local.get", 0), ("local.get", 1), ("local.get", 2), (op, off)], "cmpxchg", "%s,%d" % (op, off))
             else:
                 g.add(nm, "i" + vt, vt, [("local.get", 0), ("local.get", 1), (op, off)], "rmw", "%s,%d" % (op, off))
-    for off in WAIT_OFFS:
-        g.add("wait32_o%d" % off, "iij", "i", [("local.get", 0), ("local.get", 1), ("local.get", 2), ("memory.atomic.wait32", off)], "wait32", str(off))
-        g.add("wait64_o%d" % off, "ijj", "i", [("local.get", 0), ("local.get", 1), ("local.get", 2), ("memory.atomic.wait64", off)], "wait64", str(off))
-        g.add("notify_o%d" % off, "ii", "i", [("local.get", 0), ("local.get", 1), ("memory.atomic.notify", off)], "notify", str(off))
-    g.add("fence", "", "", [("atomic.fence",)], "fence")
-    g.write(outdir)
 
 
 def gen_mem(outdir, minpages=1, maxpages=8, nomax=False):
@@ -129,6 +134,7 @@ def gen_mem(outdir, minpages=1, maxpages=8, nomax=False):
     else:
         m.memory(minpages, maxpages, export="memory")
     add_memory_ops(g, False)
+    add_atomic_ops(g)
     # passive segments for memory.init, and one active segment
     seg0 = bytes((i * 7 + 3) & 0xFF for i in range(200))
     seg1 = bytes((255 - i) & 0xFF for i in range(33))
